@@ -1,0 +1,55 @@
+//! Verification hooks, compiled only with the `verif` cargo feature.
+//!
+//! This file is the *pass-through* version of the hook API: every hook is a
+//! no-op and the `std` shim re-exports the real standard library, so a
+//! `--features verif` build behaves exactly like a normal build.  The
+//! verification machinery replaces this file, in a scratch copy of the crate,
+//! with a model of the environment (virtual clock, park/unpark tokens, a
+//! sequentialising scheduler driven by the hook sites) plus its proof
+//! harnesses.  The API below is the contract between the two.
+#![allow(missing_docs)]
+
+/// Shadow of `std` used by `signal.rs`, `lib.rs` and `backoff.rs` through a
+/// feature-guarded `use crate::verif::std;` line.  Only `thread` and `time`
+/// are ever replaced by the verification model.
+pub mod std {
+    pub use ::std::*;
+    pub mod thread {
+        pub use ::std::thread::*;
+    }
+    pub mod time {
+        pub use ::std::time::*;
+    }
+}
+
+// Scheduling points of a blocked / pending operation (outside the channel
+// lock unless noted).
+pub const SITE_WAIT_ENTRY: u16 = 1;
+pub const SITE_WAIT_SPIN: u16 = 2;
+pub const SITE_WAIT_PRECAS: u16 = 3;
+pub const SITE_PARK: u16 = 4;
+pub const SITE_WT_ENTRY: u16 = 5;
+pub const SITE_WT_SPIN: u16 = 6;
+pub const SITE_WT_LOOP: u16 = 7;
+pub const SITE_WT_EXIT: u16 = 8;
+pub const SITE_TIMED_EXPIRED: u16 = 9;
+pub const SITE_TIMED_PRECANCEL: u16 = 10;
+pub const SITE_ABW_ENTRY: u16 = 11;
+pub const SITE_ABW_SPIN: u16 = 12;
+pub const SITE_ABW_SLEEP: u16 = 13;
+pub const SITE_POLL_PENDING: u16 = 14;
+pub const SITE_POLL_EXISTS: u16 = 15;
+pub const SITE_NOW: u16 = 16;
+
+/// A scheduling point: the verification model may run other logical threads
+/// here.  No-op in this pass-through version.
+#[inline(always)]
+pub fn at(_site: u16) {}
+
+/// Asked at the top of every bounded spin-loop body: `true` lets the model
+/// skip the remaining iterations in which no other thread acts (they are
+/// observationally identical).  Always `false` in this pass-through version.
+#[inline(always)]
+pub fn spin_cut(_site: u16) -> bool {
+    false
+}
